@@ -1,0 +1,17 @@
+#ifndef FIX8_VERIF_HOOKS_HPP_
+#define FIX8_VERIF_HOOKS_HPP_
+// Verification hooks: compiled only with -DFIX8_VERIF; without it every macro expands to nothing.
+#ifdef FIX8_VERIF
+// null unless a verification probe installs a scheduler/recorder; label names the program point,
+// value is one word of local state (e.g. a ticket) or 0
+typedef void (*fix8_verif_yield_fn)(const char *label, long value);
+inline fix8_verif_yield_fn fix8_verif_yield_hook = nullptr;
+// defined by a probe that needs to read private state of an instrumented class
+struct fix8_verif_peek;
+#define FIX8_VERIF_YIELD2(label, value) do { if (fix8_verif_yield_hook) fix8_verif_yield_hook((label), (long)(value)); } while (0)
+#define FIX8_VERIF_YIELD(label) FIX8_VERIF_YIELD2(label, 0)
+#else
+#define FIX8_VERIF_YIELD2(label, value) do {} while (0)
+#define FIX8_VERIF_YIELD(label) do {} while (0)
+#endif
+#endif
